@@ -115,6 +115,9 @@ func (w *World) Knob(name string, lo, hi int) int {
 		return v
 	}
 	v, ok := w.In.Knobs[name]
+	if ok && (v < lo || v > hi) {
+		ok = false
+	}
 	if !ok {
 		v = simnet.NewRand(w.In.Seed, "knob:"+name).Range(lo, hi)
 	}
@@ -129,9 +132,22 @@ func (w *World) KnobPick(name string, vals ...int) int {
 	if v, ok := w.res.Knobs[name]; ok {
 		return v
 	}
+	drawn := vals[simnet.NewRand(w.In.Seed, "knob:"+name).Intn(len(vals))]
 	v, ok := w.In.Knobs[name]
+	if ok {
+		// an override (minimiser) outside the knob's domain is ignored, so every replayed world stays valid
+		valid := false
+		for _, x := range vals {
+			if x == v {
+				valid = true
+			}
+		}
+		if !valid {
+			ok = false
+		}
+	}
 	if !ok {
-		v = vals[simnet.NewRand(w.In.Seed, "knob:"+name).Intn(len(vals))]
+		v = drawn
 	}
 	w.res.Knobs[name] = v
 	return v
